@@ -5,7 +5,7 @@
 
   The module-level object `_SPECIFIED_DIRECTIVE_NAMES` is an explicit `PrinterState` threaded through
   every membership test, so that a HISTORY of `to_string` calls is a fold over the state.
-  `include_introspection=True` prints the library's own constants and is not modelled.
+  `include_introspection=True` writes the library's own constants too: `printSchemaX` takes them as `Builtins`.
   Import-free.
 -/
 import PyGqlModel.Sdl
